@@ -449,6 +449,19 @@ func (s *Set) Value(_ context.Context, t *dials.Type) (reflect.Value, error) {
 			return
 		}
 
+		if fval.Kind() == reflect.Ptr && fval.Type().ConvertibleTo(ffield.Type()) {
+			// the flag holds its value by pointer (e.g. the complex
+			// helpers) and the field has a named type with the
+			// same underlying type.
+			ffield.Set(fval.Convert(ffield.Type()))
+			return
+		}
+		if !fval.Type().ConvertibleTo(stripTypePtr(ffield.Type())) {
+			setErr = fmt.Errorf("value for flag %q of type %s is not convertible to type %s",
+				f.Name, fval.Type(), stripTypePtr(ffield.Type()))
+			return
+		}
+
 		if willOverflow(fval, ptrVal.Elem()) {
 			setErr = fmt.Errorf("value for flag %q (%s) would overflow type %s",
 				f.Name, f.Value.String(), ptrVal.Type().Elem())
